@@ -151,15 +151,15 @@ impl Property for C12 {
             };
             let frames_before = exec.driver.tracer.frames.len();
             let step = exec.step_concrete(cop)?;
-            exec.check_outcome(&step)?;
-            match (&step.cop, &step.expected) {
+            exec.usable_or_skip(&step)?;
+            match (&step.cop, &step.real.outcome) {
                 (COp::Append { q, .. }, Outcome::Appended { last: Some(last) }) => {
                     let frames = &exec.driver.tracer.frames[frames_before..];
                     let files: BTreeSet<&String> = frames.iter().map(|frame| &frame.name).collect();
                     batches.push(Batch {
                         op: step.idx,
                         queue: q.text(),
-                        first: last + 1 - payloads.len() as u64,
+                        first: (last + 1).saturating_sub(payloads.len() as u64),
                         payloads,
                         frames: frames.len(),
                         files: files.len(),
